@@ -403,3 +403,9 @@ func loaderEnv() []string {
 	}
 	return append(env, "GOTOOLCHAIN=auto", "GOFLAGS=-mod=mod", "GOPROXY=off")
 }
+
+func (e *Engine) typeListSnapshot() []types.Type {
+	e.mu.Lock()
+	defer e.mu.Unlock()
+	return append([]types.Type(nil), e.typeList...)
+}
